@@ -3,6 +3,8 @@
 #include <cstdlib>
 #include <unistd.h>
 #include <sys/wait.h>
+#include <sys/resource.h>
+#include <csignal>
 
 namespace vh {
 std::map<std::string, Handler>& registry() {
@@ -75,6 +77,10 @@ std::string hexDecode(const std::string& h) {
 } // namespace vh
 
 int main(int, char**) {
+	// no single file written by the library under test may exceed 256 MB (runaway writes of a broken build)
+	struct rlimit fl = {256u << 20, 256u << 20};
+	setrlimit(RLIMIT_FSIZE, &fl);
+	signal(SIGXFSZ, SIG_IGN);
 	std::ios::sync_with_stdio(false);
 	std::string line;
 	// watchdog: a command that runs longer than this many seconds is a hang (SIGALRM kills the process,
